@@ -50,6 +50,10 @@ def run(ctx):
               'zck_get_missing_range() and dl_range() are in the same loop: the request is recomputed after each '
               'response' if inside else 'the missing range is not recomputed per fetch', fn.file, fn.line, config=config)
         dlrules.copy_guard(ck, prog, config, 'C04-c')
+        # ---- g  a complete, well-formed multipart answer is accepted wherever the transport cuts it: the data state
+        #         of the part scanner never holds an exhausted part (shared with C05-j)
+        from ..rules import partstate
+        partstate.check_part_remaining(ck, prog, config, 'C04-g')
         # ---- d  "repeatedly request": every per-request field of zckDL is reset between requests (shared with C05-g)
         from ..rules import extra
         extra.check_dl_reset(ck, prog, config, 'C04-d')
